@@ -72,7 +72,8 @@ def run(ctx):
     for t in range(nt):
         nn = rnd.randrange(2, 11)
         hist.append(links.random_history(ctx, rnd, "h%d" % t, nn, rnd.randrange(ln // 2, ln + 1), classes,
-                                         p_save=0.2, variants=("canonical", "always", "never", "superset")))
+                                         p_save=0.2, variants=("canonical", "always", "never", "superset"),
+                                         trailing=rnd.choice([0, 0, 1, 3])))
     for tr in hist:
         for i, e in enumerate(tr["events"]):
             if e["op"] == "saveload":
